@@ -416,7 +416,8 @@ def fix_last(case, nsheets_probe):
 def tlc_cases(chk):
     quick = chk.tier == "quick"
     cases = []
-    r = vlib.run_tlc("MC_Package", "MC_Package_replay.cfg", workers=4, coverage=False, timeout=1800)
+    r = vlib.run_tlc("MC_Package", "MC_Package_replay.cfg" if quick else "MC_Package_replay_d3.cfg", workers=4, coverage=False,
+                     timeout=1800)
     if not r.ok or not r.replays:
         raise vlib.ToolError("replay generation failed: " + (r.violation or r.out[-800:]))
     reps = sorted(r.replays, key=lambda x: json.dumps(x, sort_keys=True))
